@@ -62,6 +62,12 @@ func rootsOfMode(v ssa.Value, addrOnly bool) rootSet {
 					case *ssa.Store:
 						if u.Addr == ssa.Value(al) && (isPointerLike(u.Val.Type()) || derefs > 0) {
 							walk(u.Val, derefs)
+						} else if u.Addr == ssa.Value(al) && isPointerLike(derefType(x.Type())) {
+							// the local struct is a copy of another (merged := *data): the pointer, map or slice
+							// read from this field is the one the original holds
+							if ld, ok := u.Val.(*ssa.UnOp); ok && ld.Op == token.MUL {
+								walk(ld.X, derefs)
+							}
 						}
 					}
 				}
